@@ -29,7 +29,7 @@ import (
 // a reader hands out must be byte-identical to what was written at that place;
 // errors, not-found and an early stop are all fine.
 
-func init() { props["C14"] = sim.PropSpec{Gen: genC14, Exec: execC14} }
+func init() { props["C14"] = sim.PropSpec{Gen: genC14, Exec: execC14, NoShrink: noShrink} }
 
 func genC14(r *sim.Rand, tier string) *sim.Case {
 	c := &sim.Case{Cfg: map[string]int64{
@@ -43,19 +43,19 @@ func genC14(r *sim.Rand, tier string) *sim.Case {
 	if tier == "thorough" {
 		c.Cfg["max_bits"] = 400000
 	}
-	n := 3 + r.Intn(6)
-	maxVal := 120
+	// Artefact sizes are chosen so that one case (every bit, every reader) costs
+	// a few seconds: ~1 ms per flip for mmap-backed files, and for the WAL an
+	// allocation of the flipped length per decoding pass.
+	n, maxVal := 3+r.Intn(3), 80
 	switch c.Cfg["kind"] {
-	case 0: // every flipped length bit costs an allocation of that size: keep the segment short
-		n = 3 + r.Intn(4)
-		maxVal = 90
+	case 0:
+		n, maxVal = 3+r.Intn(3), 60
 	case 2:
-		n = 3 + r.Intn(14)
-		maxVal = 160
+		n, maxVal = 3+r.Intn(8), 100
 	}
 	if tier == "thorough" {
-		n += r.Intn(10)
-		maxVal *= 3
+		n += r.Intn(12)
+		maxVal *= 4
 	}
 	used := map[string]bool{}
 	for i := 0; i < n; i++ {
@@ -83,6 +83,7 @@ type c14World struct {
 	c   *sim.Case
 	res *sim.Result
 	dir string
+	gc  *gcPacer
 }
 
 // bitPlan lists the bit positions to flip inside [lo,hi) (byte offsets): all of
@@ -109,6 +110,9 @@ func execC14(t *testing.T, c *sim.Case) *sim.Result {
 	dir := newDir("c14-")
 	defer os.RemoveAll(dir)
 	w := &c14World{c: c, res: res, dir: dir}
+	var restoreGC func()
+	w.gc, restoreGC = startGCPacer()
+	defer restoreGC()
 	switch c.CfgInt("kind", 0) % 3 {
 	case 0:
 		w.walKind()
@@ -240,26 +244,19 @@ func (w *c14World) walKind() {
 		// (a) replay without the recovery pass
 		var m *wal.Manager
 		var oerr error
-		// A flipped high bit of a length field makes every decoding pass
-		// allocate gigabytes that are never touched: hand them back after each
-		// pass (see releaseIfHuge).
-		huge := false
 		if perr := guard(func() { m, oerr = wal.Open(icfg) }); perr != nil {
 			oerr = perr
 			res.Probes["panic_on_corrupt_wal"]++
 		}
-		huge = releaseIfHuge() || huge
 		nA, errA := -1, oerr
 		if oerr == nil {
 			got, rerr := replayAll(m)
 			_ = m.Close()
-			huge = releaseIfHuge() || huge
 			nA, errA = len(got), rerr
 			judge(bit, "replay", got)
 		}
 		// (b) the recovery pass a database open runs first, then replay
 		verr := wal.VerifyDir(img, nil)
-		huge = releaseIfHuge() || huge
 		nB := -1
 		var errB error
 		if verr == nil {
@@ -268,7 +265,6 @@ func (w *c14World) walKind() {
 			if perr := guard(func() { m2, o2 = wal.Open(icfg) }); perr != nil {
 				o2 = perr
 			}
-			huge = releaseIfHuge() || huge
 			if o2 == nil {
 				got, rerr := replayAll(m2)
 				_ = m2.Close()
@@ -279,7 +275,7 @@ func (w *c14World) walKind() {
 			res.Probes["wal_verify_rejects_segment"]++
 		}
 		res.Trace.Add("wal bit %d %s: replay n=%d err=%v | verify err=%v n=%d err=%v", bit, field, nA, errA != nil, verr != nil, nB, errB != nil)
-		if releaseIfHuge() || huge {
+		if w.gc.after() {
 			res.Probes["huge_allocation_from_flipped_length"]++
 		}
 	}
@@ -491,7 +487,7 @@ func (w *c14World) vlogKind() {
 			}
 		}
 		res.Trace.Add("vlog bit %d %s: reads=%d iter=%d | after verify reads=%d iter=%d", bit, field, r1, i1, r2, i2)
-		if releaseIfHuge() {
+		if w.gc.after() {
 			res.Probes["huge_allocation_from_flipped_length"]++
 		}
 	}
@@ -632,5 +628,6 @@ func (w *c14World) sstKind() {
 		}
 		_ = os.Remove(path)
 		res.Trace.Add("sst bit %d: open=%v found=%d errs=%d scanned=%d", bit, oerr == nil, found, errs, scanned)
+		w.gc.after()
 	}
 }
